@@ -6,12 +6,14 @@
 // message of
 //
 //	args payload {∅, 1 byte, 0xFD bytes} × method {"", "unlock"} × to-contract length {0, 20, 32} ×
+//	(thorough: args {0,1,0xFC,0xFD,0xFFFF,0x10000}, method also 0xFD long, to-contract also 0xFD) ×
 //	cross-chain-id length {2, 32} × source-tx-hash length {0, 32} ×
 //	destination {D1 registered vote-router chain, D2 registered hsc-router chain, DB registered+blacklisted, DU unregistered}
 //
 // a complete valid submission is executed through the real ImportExTransfer on a fresh copy of the seeded
-// main-net state, followed by a replay of the same message by the other relayer and (every 7th message) a
-// submission with invalid authentication. (thorough: additionally both source chains and the altmsg twin.)
+// main-net state, followed by a replay of the same message by the other relayer, a replay by a
+// different message carrying the same cross-chain id and (every 7th message, before the valid one) a
+// submission with invalid authentication; two source chains per router.
 //
 // Part 2 (ledger level): a real on-disk ledger executes blocks holding several imports (two accepted, one
 // rejected, one vote-only) and the block's ExecuteResult.CrossHashes / CrossStatesRoot / stored cross states are
@@ -120,12 +122,16 @@ func (d mdesc) String() string {
 	return fmt.Sprintf("args%d/method%d/toContract%d/ccid%d/srcTx%d/to%d", d.args, d.method, d.toc, d.ccl, d.txl, d.to)
 }
 
-func alphabet() []mdesc {
+func alphabet(thorough bool) []mdesc {
 	var o []mdesc
+	args, methods, tocs := []int{0, 1, 0xFD}, 2, []int{0, 20, 32}
+	if thorough { // var-uint boundaries 0xFC/0xFD and 0xFFFF/0x10000
+		args, methods, tocs = []int{0, 1, 0xFC, 0xFD, 0xFFFF, 0x10000}, 3, []int{0, 20, 32, 0xFD}
+	}
 	for _, to := range []uint64{D1, D2, DB, DU} {
-		for _, a := range []int{0, 1, 0xFD} {
-			for m := 0; m < 2; m++ {
-				for _, tc := range []int{0, 20, 32} {
+		for _, a := range args {
+			for m := 0; m < methods; m++ {
+				for _, tc := range tocs {
 					for _, cl := range []int{2, 32} {
 						for _, tl := range []int{0, 32} {
 							o = append(o, mdesc{a, m, tc, cl, tl, to})
@@ -152,6 +158,8 @@ func build(a ccm.Adapter, d mdesc, idx int, twin bool) []byte {
 	method := ""
 	if d.method == 1 {
 		method = "unlock"
+	} else if d.method == 2 {
+		method = strings.Repeat("m", 0xFD)
 	}
 	seed := byte(idx)
 	fromC := []byte{0xf0, 0x0d}
@@ -242,11 +250,8 @@ func main() {
 	polyenv.Setup(config.NETWORK_ID_MAIN_NET, vals)
 	polyenv.InstallHeightLedger()
 	polyenv.GlobalHeight = H0
-	alpha := alphabet()
-	srcs := []uint64{S1}
-	if r.Thorough() {
-		srcs = []uint64{S1, S2}
-	}
+	alpha := alphabet(r.Thorough())
+	srcs := []uint64{S1, S2}
 	covered := []string{}
 	var execs int64
 	var mu sync.Mutex
@@ -351,9 +356,7 @@ func main() {
 						run("first", a.Submit(j.c, j.i, ccm.VSame, 0, 1), msgs[j.c][j.i], open)
 						if open {
 							run("replay", a.Submit(j.c, j.i, ccm.VSame, 1, 2), msgs[j.c][j.i], false)
-							if r.Thorough() {
-								run("replay", a.Submit(j.c, j.i, ccm.VAltMsg, 0, 4), alt[j.c][j.i], false)
-							}
+							run("replay", a.Submit(j.c, j.i, ccm.VAltMsg, 0, 4), alt[j.c][j.i], false)
 						}
 						mu.Lock()
 						execs += int64(n)
